@@ -1,10 +1,113 @@
 import Model.Common.Proto
-open Btc
+import Model.Common.HashProto
+import Model.Common.ECProto
+import Model.C07.Bip32
+import Model.C07.Instance
+import Model.C07.DerPath
+import Generated.Bip32
+open Btc Btc.Bip32
 
-/-- line protocol of property C07: see harness/c07.py -/
-def handle : List String → String
-  -- one line per generated module this driver serves, e.g.
-  -- | "gen" :: "VarInt" :: fn :: args => (Gen.VarInt.dispatch fn args).getD "bad-op"
-  | _ => "bad-op"
+/-!
+Line protocol of property C07 (see harness/c07.py).  `<xkey>` is six tokens:
+`<version hex> <depth> <parent fingerprint hex> <index> <chain code hex> <key hex>`;
+`<path>` is `_` or comma-separated decimal indexes; `<mac>` is `_` (HMAC-SHA512) or
+`<i>:<hex>`: the MAC answers `<hex>` for any message ending in the 4-byte big-endian index `i`
+(used to reach the invalid-child branches, which no real HMAC output reaches).
+-/
+
+def macOf (tok : String) : Option (Bytes → Bytes → Bytes) :=
+  if tok == "_" then some hmacSha512 else
+  match tok.splitOn ":" with
+  | [i, h] => do
+    let i ← i.toNat?
+    let h ← fromHex? h
+    pure fun c d => if d.drop (d.length - 4) == beBytes 4 i then h else hmacSha512 c d
+  | _ => none
+
+def envOf (mac : Bytes → Bytes → Bytes) : Env EC.Point := secpEnv mac
+
+def xkeyOf : List String → Option XKey
+  | [v, d, fp, i, cc, k] => do
+    pure { version := ← fromHex? v, depth := ← d.toNat?, parentFp := ← fromHex? fp, index := ← i.toNat?,
+           chain := ← fromHex? cc, key := ← fromHex? k }
+  | _ => none
+
+def pathOf (s : String) : Option (List Nat) :=
+  if s == "_" then some [] else (s.splitOn ",").mapM (·.toNat?)
+
+def optBytes (s : String) : Option (Option Bytes) :=
+  if s == "none" then some none else (fromHex? s).map some
+
+def boolOf (s : String) : Option Bool :=
+  if s == "True" then some true else if s == "False" then some false else none
+
+def renderX (x : XKey) : String :=
+  s!"{toHex x.version} {x.depth} {toHex x.parentFp} {x.index} {toHex x.chain} {toHex x.key}"
+
+def rX (r : Except Err XKey) : String :=
+  match r with | .ok x => "ok " ++ renderX x | .error e => "err " ++ e.name
+
+def rB (r : Except Err Bytes) : String :=
+  match r with | .ok b => "ok " ++ toHex b | .error e => "err " ++ e.name
+
+def showPath (p : List Nat) : String := if p.isEmpty then "_" else ",".intercalate (p.map toString)
+
+def rP (r : Except DerPath.Err (List Nat)) : String :=
+  match r with | .ok p => "ok " ++ showPath p | .error e => "err " ++ e.name
+
+def strOfHex (s : String) : Option (List Char) := do
+  let b ← fromHex? s
+  pure (b.map fun c => Char.ofNat c.toNat)
+
+def bip32Op : List String → Option String
+  | "bip32.derive" :: mac :: v :: d :: fp :: i :: cc :: k :: [path, forced] => do
+    let E := envOf (← macOf mac)
+    pure (rX (derive E (← xkeyOf [v, d, fp, i, cc, k]) (← pathOf path) (← optBytes forced)))
+  | "bip32.raw" :: mac :: v :: d :: fp :: i :: cc :: k :: [path, forced] => do
+    let E := envOf (← macOf mac)
+    pure (rX (deriveB E (← xkeyOf [v, d, fp, i, cc, k]) (← pathOf path) (← optBytes forced)))
+  | "bip32.fold" :: mac :: v :: d :: fp :: i :: cc :: k :: [path] => do
+    let E := envOf (← macOf mac)
+    pure (match deriveFold E (← xkeyOf [v, d, fp, i, cc, k]) (← pathOf path) with
+          | .ok x => "ok " ++ renderX x | .error _ => "err any")
+  | "bip32.neuter" :: x => do pure (rX (xpubFromXprv (envOf hmacSha512) (← xkeyOf x)))
+  | "bip32.fp" :: x => do pure (rB (fingerprint (envOf hmacSha512) (← xkeyOf x)))
+  | "bip32.valid" :: x => do
+    pure (match assertValid (envOf hmacSha512) (← xkeyOf x) with | .ok _ => "ok" | .error e => "err " ++ e.name)
+  | ["bip32.root", seed, ver] => do pure (rX (rootFromSeed (envOf hmacSha512) (← fromHex? seed) (← fromHex? ver)))
+  | "bip32.crack" :: mac :: v :: d :: fp :: i :: cc :: k :: c => do
+    pure (rX (crack (envOf (← macOf mac)) (← xkeyOf [v, d, fp, i, cc, k]) (← xkeyOf c)))
+  | "bip32.account" :: v :: d :: fp :: i :: cc :: k :: [branch, addr, only01, mx] => do
+    pure (rX (deriveFromAccount (envOf hmacSha512) (← xkeyOf [v, d, fp, i, cc, k]) (← branch.toNat?) (← addr.toNat?)
+      (← boolOf only01) (← mx.toNat?)))
+  | "bip32.range" :: v :: d :: fp :: i :: cc :: k :: [branch, addrs, only01, mx] => do
+    pure (match deriveFromAccountRange (envOf hmacSha512) (← xkeyOf [v, d, fp, i, cc, k]) (← branch.toNat?)
+      (← pathOf addrs) (← boolOf only01) (← mx.toNat?) with
+      | .ok xs => "ok " ++ " | ".intercalate (xs.map renderX) | .error e => "err " ++ e.name)
+  | "bip85.entropy" :: v :: d :: fp :: i :: cc :: k :: [path] => do
+    pure (rB (bip85Entropy (envOf hmacSha512) (← xkeyOf [v, d, fp, i, cc, k]) (← pathOf path)))
+  | ["ver.pub", v] => do
+    pure (match Gen.Bip32.pubVersion (← fromHex? v) with | some p => "ok " ++ toHex p | none => "err bad-version")
+  | ["path.parse", s] => do pure (rP (DerPath.indexesFromStr (← strOfHex s)))
+  | ["path.parse380", s] => do pure (rP (DerPath.indexesFromStr380 (← strOfHex s)))
+  | ["path.str", p, h] => do
+    let h ← strOfHex h
+    pure (match DerPath.strFromIndexes (← pathOf p) h with
+          | .ok cs => "ok " ++ toHex (cs.map fun c => UInt8.ofNat c.toNat) | .error e => "err " ++ e.name)
+  | ["path.bytes", p] => do
+    pure (match DerPath.bytesFromIndexes (← pathOf p) with | .ok b => "ok " ++ toHex b | .error e => "err " ++ e.name)
+  | ["path.frombytes", b] => do pure (rP (DerPath.indexesFromBytes (← fromHex? b)))
+  | _ => none
+
+def handle (toks : List String) : String :=
+  match toks with
+  | "gen" :: "Bip32" :: fn :: args => (Gen.Bip32.dispatch fn args).getD "bad-op"
+  | _ =>
+    match hashOp toks with
+    | some r => r
+    | none =>
+      match EC.ecOp toks with
+      | some r => r
+      | none => (bip32Op toks).getD "bad-op"
 
 def main : IO Unit := runLoop handle
